@@ -390,7 +390,9 @@ func VerifGenInterpNum() {
 	props, _ := def["properties"].(map[string]any)
 	pm, _ := props[attr].(map[string]any)
 	plain := (&gen{root: root, atom: "v1", num: "10", dur: "1s", key: genKey}).examples(pm, 0)
-	vars := (&gen{root: root, atom: "v1", num: "10", dur: "1s", key: genKey, numVar: true}).examples(pm, 0)
+	// the number arrives through a variable, or is written as the string the variable would expand to
+	quoted := vrtChoice("writtenAsString", 2) == 1
+	vars := (&gen{root: root, atom: "v1", num: "10", dur: "1s", key: genKey, numVar: !quoted, numStr: quoted}).examples(pm, 0)
 	idx := genIndexOf(value, plain)
 	vrtAssume(idx >= 0 && idx < len(vars))
 	// only examples where something was replaced
